@@ -394,3 +394,11 @@ func vh_C06_L7_lifetime_limit() {
 	vobserve("onWire", uint64(onWire))
 	vcover("end")
 }
+
+// C06.L8: obligations of other properties that C06's statement also rests on: the codec
+// keeps the ordered and the unordered entry of one stream apart (= C07.L2b / C12.L1), and a
+// failed write gives back exactly the number it consumed, none on an unordered stream (= C18.L2).
+func vh_C06_L8_iforward_tsn_keeps_ordered_and_unordered_apart() {
+	vh_C07_L2_iforward_tsn_ordered_and_unordered_entries()
+}
+func vh_C06_L8_failed_write_gives_back_its_number() { vh_C18_L2_block_write_gate() }
